@@ -45,7 +45,7 @@ def run(res, tier, br, model_ok=True, search=False):
     # condition, directive), comments wider than 80 columns on their own line (the only comments a length rule looks at)
     extra.append(("ctx.c", "#if 'a' == 97\n# define A 'b'\n#endif\nint\t\tg_tab['z' + 1];\nchar\tg_buf[sizeof \"abcdef\"];\nstatic char\tg_s[] = \"init text\";\n"
                   "enum e_x\n{\n\tA = 'a',\n\tB = sizeof(\"bb\")\n};\nint\t\tf(int c)\n{\n\tint\t\tloc['m' + 2];\n\tchar\ttmp[sizeof \"xyz\" + 1];\n\n"
-                  "\tswitch (c)\n\t{\n\t\tcase 'q':\n\t\t\treturn ('r');\n\t}\n\twhile (c != 'w' && f('v') > \"str\"[0])\n\t\tc = (c == 'k') ? 'y' : 'n';\n\treturn (loc[0] + tmp[0]);\n}\n", 0))
+                  "\tswitch (c)\n\t{\n\t\tcase 'q':\n\t\t\treturn ('r');\n\t}\n\tc = 'ab' + 'RIFF' + 'x y';\n\twhile (c != 'w' && f('v') > \"str\"[0])\n\t\tc = (c == 'k') ? 'y' : 'n';\n\treturn (loc[0] + tmp[0]);\n}\n", 0))
     extra.append(("long.c", "// a comment line made of several words that runs well beyond the eighty columns allowed\n"
                   "/* a block comment on one line made of several words, also wider than eighty columns ok */\n"
                   "int\tf(void)\n{\n\t// inside a function: a comment line of several words, wider than the eighty columns\n"
